@@ -48,7 +48,7 @@ def mc_constants(ctx, nb=3, flags='{0, 1, 2, 3, 4, 9}', ys=None, qs=None, mod=No
 class World(object):
     """one real package + fitter per configuration (grid, K pattern, A_V range)"""
 
-    def __init__(self, root, names, grid, K, ulo, uhi):
+    def __init__(self, root, names, grid, K, ulo, uhi, zero_cells=()):
         self.dir = tempfile.mkdtemp(dir=root)
         nb = len(K)
         self.names = names
@@ -56,7 +56,7 @@ class World(object):
         self.wavs = fw.band_wavelengths(nb)
         h = zlib.crc32(repr((names, grid, K, ulo, uhi)).encode())
         self.version = 2 if (h // 7) % 3 == 0 else 1          # a third of the worlds are cube-format packages
-        fw.build_indep_package(self.dir, names, grid, self.filts, self.wavs, version=self.version)
+        fw.build_indep_package(self.dir, names, grid, self.filts, self.wavs, version=self.version, zero_cells=zero_cells)
         self.law = fw.make_extinction(K, self.wavs, variety=h)
         self.fitter = fw.make_fitter(self.dir, self.filts, self.law, ulo, uhi, use_memmap=False)
 
@@ -93,9 +93,43 @@ def replay_groups(groups, root, mode, seed):
                 replay_one(col, w, b, names, mode, seed)
             if mode in ('C01', 'C11'):
                 representation_twins(col, w, len(b0['K']), mode, seed + key[0] * 100 + key[1] * 10 + key[2])
+            if mode == 'C04':
+                dark_model_stage(col, root, b0, behs[:300], names, seed + key[0] + key[1] + key[2])
         finally:
             w.close()
     return col
+
+
+def dark_model_stage(col, root, b0, behs, names, seed):
+    """C04 with a model that ends up with a non-finite chi^2 listed BEFORE finite ones in the package: the same grid with one
+    extra model, dark (zero flux) in one band, inserted at a seed-chosen position.  Every spec row must still be found under its
+    own name with the package index shifted accordingly, every model listed once, chi^2 non-decreasing with the non-finite last."""
+    nm = len(names)
+    pos = [0, 0, nm // 2, nm][seed % 4]
+    band = seed % len(b0['K'])
+    names2 = names[:pos] + ['zz_dark'] + names[pos:]
+    grid2 = b0['grid'][:pos] + [[0] * len(b0['K'])] + b0['grid'][pos:]
+    w = World(root, names2, grid2, b0['K'], b0['ulo'], b0['uhi'], zero_cells={(pos, band)})
+    try:
+        for b in behs:
+            if b['rows'][0].get('sing', False) or b['src']['flag'][band] not in (1, 4):
+                continue                      # the dark band must be fitted for the chi^2 of the dark model to be non-finite
+            rows2 = b['rows'][:pos] + [{'sing': True}] + b['rows'][pos:]
+            obs = fw.project_info(w.fit(fw.make_source(b['src'])))
+            col.replayed += 1
+            bad = fw.compare_fit(obs, names2, rows2, check_rank=True, check_pred=True)
+            if not bad:
+                k = obs['names'].index('zz_dark')
+                if np.isfinite(obs['chi2'][k]) and obs['chi2'][k] < 1e30:
+                    bad = ['the model with zero flux in fitted band %d has chi2 %r' % (band, obs['chi2'][k])]
+                elif k != len(names2) - 1 and not all((not np.isfinite(c)) or c >= 1e30 for c in obs['chi2'][k:]):
+                    bad = ['a model with non-finite chi2 is ranked %d of %d, before finite ones' % (k + 1, len(names2))]
+            if bad:
+                col.violation('C04:dark_model', 'package with a dark model at index %d (zero flux in band %d): %s' % (pos, band, '; '.join(bad[:4])),
+                              dict(describe(b), dark_index=pos, dark_band=band, observed=obs))
+                break
+    finally:
+        w.close()
 
 
 def representation_twins(col, w, nb, mode, seed):
